@@ -7,7 +7,7 @@ BOUNDS = {
     "quick": "dot (K=3), matrix-vector (2x3), matrix-matrix (2x2x2), elementwise (M=3), row/column reductions (2x3): one operand's entries symbolic integers (each may be 0: "
              "every sparsity pattern incl. empty operands), the other concrete from patterns over {0,2,3}; every loop order implemented (operands swizzled), uniform tilings "
              "of K or M by 1 and 2, two-finger and leader-follower intersection; operands built both canonically and with explicit zeros / all-zero rows",
-    "thorough": "matrix-vector 3x3 and 2x4, matrix-matrix 2x3x2, tilings by 3, every concrete pattern of the second operand",
+    "thorough": "matrix-vector 3x3 (untiled loop orders) and 2x4 (all dataflows), matrix-matrix 2x3x2, tilings by 3, every concrete pattern of the second operand",
 }
 OUTSIDE = "boxes larger than the bound; both factors symbolic at once (products must stay linear); float values; tiling a lower rank of an operand that stores all-default sub-fibers (explicit all-zero rows): that is the region of known finding F16, reported under C02/C08/C09"
 ASSUMPTIONS = ["A1 integers only", "S1, S2"]
@@ -96,7 +96,7 @@ def obligations(tier):
         add("mv", "MK-ref", [2, 3], B)
         add("mv", "MK-dense", [2, 3], B)
         add("mv", "KM1M0/1", [2, 3], B)
-        add("mv", "KM1M0/2", [3, 3] if not q else [3, 2], B if not q else B[:2])
+        add("mv", "KM1M0/2", [3, 2], B[:2])          # (3x3 does not finish inside the thorough budget)
         for variant in ("MK", "MK1K0/2", "KM"):
             add("mv", variant, [2, 3], B, "2f", "estimated")
     # matrix-matrix
@@ -117,7 +117,8 @@ def obligations(tier):
             add("reduce", variant, [2, 3], [], "2f", explicit)
     if not q:
         for variant in ("MK", "KM", "MK1K0/2", "MK1K0/3", "M1M0K/2"):
-            add("mv", variant, [3, 3], [2, 0, 3], "2f", False)
+            if variant in ("MK", "KM"):
+                add("mv", variant, [3, 3], [2, 0, 3], "2f", False)      # 512 sparsity patterns; the tiled dataflows at 3x3 are too close to the budget
             add("mv", variant, [2, 4], [2, 0, 3, 1], "2f", False)
         for variant in ("MNK", "MKN", "KMN", "NMK"):
             add("mm", variant, [2, 3], [[2, 0], [0, 3], [1, 1]], "2f", False)
